@@ -1172,4 +1172,46 @@ Section Concrete.
     - (* and holds at the start *)
       apply mk_request_inv; [|exact Hl]. split; [reflexivity|]. split; constructor.
   Qed.
+
+  Lemma k_at_ok : Forall byte_ok k_at. Proof. repeat constructor. Qed.
+
+  (* Referrers against the same kind of registry *)
+  Theorem concrete_referrers fuel :
+    c_kind c = KReferrers ->
+    NoDup (map fst L) -> (forall it, In it L -> fst it <> []) ->
+    Forall byte_ok (c_at c) ->
+    (forall i, (Z.of_N (d_doc_len (ds i)) <= eff_limit (c_limit c))%Z) ->
+    (forall i, qget k_at (d_extra (ds i)) = None) ->
+    (length L < fuel)%nat ->
+    let t := loop (reg_serve KReferrers cu (fun _ p => p) vis L cap ds render_c trailer) resolve_c (fun _ => false) c
+                  fuel 0 0 (mkUrl P0 (referrers_query (c_at c))) [] in
+    t_out t = Done /\
+    concat (t_pages t) = filter_referrers (filter vis L) (c_at c) /\
+    (length (t_reqs t) <= S (length L))%nat.
+  Proof.
+    intros K Hnd Hne Ha Hfit Hex Hfuel.
+    apply (referrers_exactly_once_inv L cap ds render_c trailer resolve_c c cu (fun _ p => p) vis inv_c P0 fuel);
+      auto.
+    - intros i base x Hi Hx. destruct (target_inv i base x Hi Hx) as (Ep & Av & Qo).
+      unfold render_c. rewrite Ep. rewrite contains_app.
+      rewrite (contains_forallb c_gt path_char P0 eq_refl HP0c). cbn [contains existsb].
+      change (c_qm =? c_gt) with false. cbn [orb].
+      apply (contains_forallb c_gt enc_char); [reflexivity|]. apply enc_pairs_enc_char. now apply shown_ok.
+    - intros i base x Hi Hx. destruct (target_inv i base x Hi Hx) as (Ep & Av & Qo).
+      destruct Hi as (Eb & _ & _).
+      unfold resolve_c, render_c. rewrite Ep.
+      pose proof (shown_ok _ Qo) as KV.
+      rewrite (resolve_abs_path (mkS sch host (u_path base) []) P0 segs0 (enc_pairs (shown (u_query (link_target ds cu (fun _ p => p) i base x))))); auto.
+      + cbn [s_path s_query]. rewrite (parse_enc_pairs _ KV). rewrite (vsmap_shown _ Av).
+        f_equal. destruct (link_target ds cu (fun _ p => p) i base x) as [p q]. cbn [u_path u_query] in *. now subst p.
+      + now apply enc_pairs_query_char.
+      + unfold link_ok. rewrite forallb_app. rewrite HP0p. cbn [forallb]. change (printable c_qm) with true. cbn [andb].
+        apply (forallb_impl query_char printable _ query_char_printable). now apply enc_pairs_query_char.
+    - intros i base x Hi Hx. apply mk_request_inv; [|constructor].
+      pose proof (target_inv i base x Hi Hx) as T. exact T.
+    - apply mk_request_inv; [|constructor]. split; [reflexivity|]. unfold referrers_query.
+      destruct (is_empty (c_at c)); [split; constructor|]. split.
+      + constructor; [|constructor]. right. split; [intro E; symmetry in E; now apply k_n_neq_at in E|now eexists].
+      + constructor; [|constructor]. split; [apply k_at_ok|exact Ha].
+  Qed.
 End Concrete.
